@@ -20,6 +20,11 @@ the dimension` computed here from the program's own declarations (never from pym
 A program is a subject variable `x` (category, shape/path, attributes, equations) plus helpers; the space is
 all programs within <= k deviations from the per-category base program (k = 2 quick, 3 thorough).
 
+The statement speaks of expand_vectors, not of it in isolation: the same comparison (same options on both sides,
+expansion off vs on) is also made under every single other simplification switch that moves, removes or rewrites
+variables before a late / after an early expansion (CONTEXTS; pairs of switches in the thorough tier), on the
+programs on which the switch acts and acts on whole arrays (its family).
+
 Two families of genuine defects get fixed signatures (KNOWN_TRIGGERS): a failing program is charged to one only if its
 smallest failing sub-program carries the family's trigger features and stops failing when exactly those are removed.
 """
